@@ -15,9 +15,12 @@
    C11_is_min_substring_edit_distance closes the specification side (Sellers 1980): the recurrence [sed] is
    attained by the Levenshtein distance between the pattern and some substring of the text, and no substring
    does better; edit distance is the least cost of an edit script ([script]) = the executable [lev].
-   NOT a theorem (kept as a Definition / test): the 256-bit variant bpm_256 (lane-wise add256), which is
-   decided on every run by model/implementation/specification correspondence. *)
-From KV Require Import Base Bpm BpmProofs BpmBits BpmBitsProofs SellersProofs.
+   C11_bpm256 : the AVX2 routine bpm_256 (four 64-bit lanes) returns the same for the first 255 pattern symbols:
+                the bit-level step proved at any word width, and the lane operations of the model - and/or/xor/not,
+                add256 with Yee's carry trick (generate/propagate masks resolved by one integer addition), the
+                cross-lane shift, testz against the single-bit MASK, the match masks - proved to BE the 256-bit word
+                operations (Bpm256Proofs.v). *)
+From KV Require Import Base Bpm BpmProofs BpmBits BpmBitsProofs SellersProofs Bpm256Proofs.
 Local Open Scope Z_scope.
 
 Theorem C11_block : forall t p, (1 <= length p)%nat ->
@@ -73,11 +76,25 @@ Theorem C11_word_formulas_are_the_serial_step : forall Eq VP VN hpin hnin,
 Proof. exact word_step_serial. Qed.
 Print Assumptions C11_word_formulas_are_the_serial_step.
 
-Definition symbols13 (l : list Z) : Prop := Forall (fun c => 0 <= c < 13) l.
+(* the 256-bit routine, for all texts and all patterns (the first 255 symbols count, as in the C code) *)
+Theorem C11_bpm256 : forall t p, (1 <= length p)%nat -> bpm256 t p = sed t (firstn 255 p).
+Proof. exact bpm256_is_sed. Qed.
+Print Assumptions C11_bpm256.
 
-Definition C11_bpm256_full_statement : Prop := forall t p,
-  symbols13 t -> symbols13 p -> (1 <= length p <= 255)%nat -> (length p <= length t)%nat ->
-  bpm256 t p = sed t p.
+Corollary C11_all_three_routines_agree : forall t p, (1 <= length p <= 63)%nat ->
+  bpm64_bits t p = bpm_block_bits t p /\ bpm256 t p = bpm_block_bits t p.
+Proof.
+  intros t p H. split; [apply C11_bpm64_agrees_with_block; exact H|].
+  rewrite C11_bpm256 by lia. rewrite C11_block by lia. rewrite !firstn_all2 by lia. reflexivity.
+Qed.
+Print Assumptions C11_all_three_routines_agree.
+
+(* the carry trick of add256 on its own: the four lanes are the 256-bit sum, carries rippling through *)
+Theorem C11_add256_is_256_bit_addition : forall a0 a1 a2 a3 b0 b1 b2 b3,
+  (a0 < w64 -> a1 < w64 -> a2 < w64 -> a3 < w64 -> b0 < w64 -> b1 < w64 -> b2 < w64 -> b3 < w64 ->
+   add256 [a0; a1; a2; a3] [b0; b1; b2; b3] = ripple_lanes [a0; a1; a2; a3] [b0; b1; b2; b3] false)%N.
+Proof. exact add256_ripple. Qed.
+Print Assumptions C11_add256_is_256_bit_addition.
 
 (* the specification at its two ends *)
 Theorem C11_spec_upper_bound : forall t p, sed t p <= Z.of_nat (length p).
